@@ -5,21 +5,24 @@ NM = 8
 SELS = [(a,) for a in range(NM)] + list(itertools.product(range(NM), repeat=2))
 SELS += [(0, 2, 2), (1, 2, 2), (5, 2, 2), (0, 2, 4), (4, 2, 2), (0, 7, 2), (3, 2, 2), (0, 3, 2), (6, 2, 0), (2, 2, 2)]
 def _j(kind, entry, props, what, sel):
-    tag = "".join(str(x) for x in sel)
+    tag = "".join(str(x) for x in sel) if max(sel) < 10 else "m" + "-".join(str(x) for x in sel)
     return dict(name="msg.%s.%s" % (kind, tag), props=props, kind="B", tier=("thorough" if kind == "chunking" and sel != (0, 2) else "quick"), harness="h_msg.c", entry=entry, contracts=["common.h"], loops=False,
         defines=["SELS=" + ",".join(str(x) for x in sel), "NSEL=%d" % len(sel)],
         cbmc_flags=["--unwind", "44", "--unwinding-assertions"], timeout=1200, cost=5, mem_gb=12, what=what,
-        bound="one message built from menu entries %s (menu of 9 unit spellings: absolute, relative, common, with parameter, two items, undefined, malformed list) over a 6-entry command table; split point / handler values symbolic; loops unwound 44 with unwinding assertions" % (list(sel),))
+        bound="one message built from menu entries %s (menu of 12 unit spellings: absolute, relative, common, with parameter, two items, undefined, malformed list, optional parameter absent/present, surplus parameter) over a 7-entry command table; split point / handler values symbolic; loops unwound 44 with unwinding assertions" % (list(sel),))
 JOBS = []
 MALF = [(8,)] + [(8, x) for x in range(9)] + [(x, 8) for x in range(8)] + [(0, 8, 2)]
+# optional parameter / surplus parameter units: a unit must not see what an earlier unit left unread (C09, C05)
+MALF += [(9,), (10,), (11,), (11, 9), (11, 10), (10, 9), (9, 10), (4, 9), (11, 2), (11, 4), (3, 9), (11, 11), (11, 9, 10)]
+ISOX = [(11, 9), (10, 9), (11, 10)]
 for sel in SELS + MALF:
     JOBS.append(_j("dispatch", "h_msg_dispatch", ["C02", "C06", "C05"], "whole library on one message: handler sequence, parameters, -113, framed output == statement", sel))
 for sel in SELS:
     if sel in ((0, 2), (4, 0), (0, 7), (3, 4), (0, 2, 2)):
         JOBS.append(_j("chunking", "h_msg_chunking", ["C08"], "stream (this message + one more) in one call vs split at every point: identical trace and remainder", sel))
-for sel in SELS:
-    if len(sel) == 2 and sel[0] <= sel[1]:
+for sel in SELS + ISOX:
+    if len(sel) == 2 and (sel[0] <= sel[1] or sel in ISOX):
         JOBS.append(_j("isolation", "h_msg_isolation", ["C09"], "message B after message A vs B on a fresh context: identical trace", sel))
-for sel in SELS:
+for sel in SELS + ISOX:
     if len(sel) >= 2:
         JOBS.append(_j("twolines", "h_msg_twolines", ["C08"], "two messages in one input call vs one call per message: identical trace and remainder", sel))
